@@ -624,7 +624,8 @@ package inference
 //@ prop C05 C03 C06 C10
 //@ requires (not (isnil diagnosticEngine))
 //@ modifies *
-//@ ensures new-engine-is-well-formed (and (fresh result) (engOK result) (= result.diagnosticEngine diagnosticEngine) (= result.controlledTriggersBySite nil))
+//@ ensures new-engine-is-well-formed (and (fresh result) (engOK result) (= result.diagnosticEngine diagnosticEngine) (= result.controlledTriggersBySite nil)
+//@    (= result.pass pass) (not (= result.inferredMap.upstreamMapping nil)))
 
 //@ func (*InferredMap).OrderedRange
 //@ inline
@@ -634,7 +635,7 @@ package inference
 //@ func (*Engine).ObserveUpstream
 //@ prop C05 C03 C06
 //@ ghost dyncalls-pure
-//@ requires (and (engOK e) (not (= e.inferredMap.upstreamMapping nil)) (not (= e.pass nil)) (not (= e.pass.Pass nil)))
+//@ requires (and (engOK e) (not (= e.inferredMap.upstreamMapping nil)))
 //@ modifies *
 //@ ensures engine-stays-well-formed (and (engOK e) (sameEngine e))
 //@ ensures determined-kept (determinedKept e)
